@@ -102,7 +102,7 @@ fn mem_shape(ty: &Ty, depth: u32) -> (f64, u32) {
 
 pub fn c09(ctx: &Ctx) {
 	let mut rep = Report::new("C09");
-	let nvals = ctx.budget(100, 2000);
+	let nvals = ctx.budget(100, 6000);
 	let mut worst_ratio_milli = 0u64;
 	for ops in ctx.my_types() {
 		if ops.dec.is_none() || ops.has_tag("recursive") {
@@ -338,7 +338,7 @@ pub fn c11(ctx: &Ctx) {
 		finish(ctx, &rep);
 		return;
 	}
-	let n = ctx.budget(1500, 30_000);
+	let n = ctx.budget(1500, 120_000);
 	for ops in depth_types(ctx) {
 		let d = ops.d();
 		let mut rng = ctx.rng_for(ops.name);
@@ -581,7 +581,7 @@ fn used_mem_of(ops: &TypeOps, b: &[u8], layers_above: bool) -> (Option<Val>, usi
 
 pub fn c12(ctx: &Ctx) {
 	let mut rep = Report::new("C12");
-	let n = ctx.budget(600, 15_000);
+	let n = ctx.budget(600, 75_000);
 	for ops in ctx.my_types() {
 		let Some(mem_slice) = ops.mem_slice else { continue };
 		let d = ops.d();
